@@ -159,16 +159,16 @@ Section Gates.
   Notation co := (cplx o).
   Notation mat := (@mat T).
   Notation op := (@op K).
-  Local Notation "0" := (k0 o).
-  Local Notation "1" := (k1 o).
+  Local Notation r0 := (k0 o).
+  Local Notation r1 := (k1 o).
   Local Notation "a + b" := (kadd o a b).
   Local Notation "a * b" := (kmul o a b).
   Local Notation "a - b" := (ksub o a b).
   Local Notation "- a" := (kopp o a).
 
-  Definition re (x : K) : T := (x, 0).
-  Definition im (x : K) : T := (0, x).
-  Definition zz : T := (0, 0).
+  Definition re (x : K) : T := (x, r0).
+  Definition im (x : K) : T := (r0, x).
+  Definition zz : T := (r0, r0).
   Definition kq (n d : Z) : K := kofZ o n * kinv o (kofZ o d).      (* the rational literal n/d *)
 
   (* ---- single qubit gates: the 2 x 2 arrays passed to Unitary ---- *)
@@ -177,46 +177,46 @@ Section Gates.
 
   Definition sq_rows (g : sq) : list (list T) :=
     match g with
-    | gI => [[re 1; re 0]; [re 0; re 1]]
-    | gH => [[re (1 * h); re (1 * h)]; [re (1 * h); re ((- (1)) * h)]]          (* [[1,1],[1,-1]] / 2**0.5 *)
-    | gX => [[re 0; re 1]; [re 1; re 0]]
-    | gY => [[re 0; im (- (1))]; [im 1; re 0]]
-    | gZ => [[re 1; re 0]; [re 0; re (- (1))]]
-    | gS => [[re 1; re 0]; [re 0; im 1]]
-    | gSadj => [[re 1; re 0]; [re 0; im (- (1))]]
-    | gT => [[re 1; re 0]; [re 0; (h, h)]]                   (* exp(i pi/4) = cos(pi/4) + i sin(pi/4) *)
-    | gTadj => [[re 1; re 0]; [re 0; (h, - h)]]              (* exp(-i pi/4) *)
+    | gI => [[re r1; re r0]; [re r0; re r1]]
+    | gH => [[re (r1 * h); re (r1 * h)]; [re (r1 * h); re ((- r1) * h)]]          (* [[1,1],[1,-1]] / 2**0.5 *)
+    | gX => [[re r0; re r1]; [re r1; re r0]]
+    | gY => [[re r0; im (- r1)]; [im r1; re r0]]
+    | gZ => [[re r1; re r0]; [re r0; re (- r1)]]
+    | gS => [[re r1; re r0]; [re r0; im r1]]
+    | gSadj => [[re r1; re r0]; [re r0; im (- r1)]]
+    | gT => [[re r1; re r0]; [re r0; (h, h)]]                   (* exp(i pi/4) = cos(pi/4) + i sin(pi/4) *)
+    | gTadj => [[re r1; re r0]; [re r0; (h, - h)]]              (* exp(-i pi/4) *)
     | gSX => let f := kq 1 2 in                              (* 0.5 * [[1+1j, 1-1j], [1-1j, 1+1j]] *)
-             [[(f * 1, f * 1); (f * 1, f * (- (1)))]; [(f * 1, f * (- (1))); (f * 1, f * 1)]]
+             [[(f * r1, f * r1); (f * r1, f * (- r1))]; [(f * r1, f * (- r1)); (f * r1, f * r1)]]
     end.
 
   (* rotations; (c, s) = (cos(theta/2), sin(theta/2)) except for P where (c, s) = (cos theta, sin theta) *)
   Inductive rq : Type := gP | gRx | gRy | gRz.
   Definition rq_rows (g : rq) (c s : K) : list (list T) :=
     match g with
-    | gP => [[re 1; re 0]; [re 0; (c, s)]]                   (* exp(1j * theta) *)
+    | gP => [[re r1; re r0]; [re r0; (c, s)]]                   (* exp(1j * theta) *)
     | gRx => [[re c; im (- s)]; [im (- s); re c]]            (* [[cos, -1j sin], [-1j sin, cos]] *)
     | gRy => [[re c; re (- s)]; [re s; re c]]
-    | gRz => [[(c, - s); re 0]; [re 0; (c, s)]]              (* exp(-1j theta/2), exp(1j theta/2) *)
+    | gRz => [[(c, - s); re r0]; [re r0; (c, s)]]              (* exp(-1j theta/2), exp(1j theta/2) *)
     end.
 
   (* ---- CZ ---- *)
   Variables (r2 r3i : K).                                (* 2**0.5, 1/3**0.5 *)
-  Definition cz_ubs : mat := of_rows co [[re ((- (1)) * r3i); re (r2 * r3i)]; [re (r2 * r3i); re (1 * r3i)]].
+  Definition cz_ubs : mat := of_rows co [[re ((- r1) * r3i); re (r2 * r3i)]; [re (r2 * r3i); re (r1 * r3i)]].
   Definition cz_ua : mat :=
     let u := fold_left (fun u i => set_block u i 2 cz_ubs) [0; 2; 4] (mid co) in
-    neg_row u 3.
+    neg_row o u 3.
 
   (* ---- CZ_Heralded ---- *)
   Variables (qi g : K).                                  (* 2**-0.25, (3/2**0.5 - 2)**0.5 *)
   Definition czh_uns : mat :=
-    of_rows co [[re (1 - r2); re qi; re g];
+    of_rows co [[re (r1 - r2); re qi; re g];
                 [re qi; re (kq 1 2); re (kq 1 2 - h)];
                 [re g; re (kq 1 2 - h); re (r2 - kq 1 2)]].
   Definition czh_ua0 : mat :=
     let u := set_block (mid co) 1 3 (flip2 3 czh_uns) in
     let u := set_block u 4 3 czh_uns in
-    neg_col u 3.
+    neg_col o u 3.
   Definition czh_ubs : mat :=
     let u := set_entry (mid co) 3 3 (re h) in
     let u := set_entry u 4 4 (re h) in
@@ -226,7 +226,7 @@ Section Gates.
   Definition czh_ua : mat :=
     let p1 := swaps_mat o czh_swaps in               (* permutation_mat_from_swaps_dict(swaps, 8) *)
     let p2 := madj co p1 in                          (* np.conj(u_perm1.T) *)
-    mm 8 (mm 8 (mm 8 (mm 8 p2 czh_ubs) czh_ua0) czh_ubs) p1.
+    mm o 8 (mm o 8 (mm o 8 (mm o 8 p2 czh_ubs) czh_ua0) czh_ubs) p1.
 
   (* ---- CCZ: the 10 x 10 literal ---- *)
   Variable r7 : K.                                       (* 7**0.5 *)
@@ -303,7 +303,7 @@ Section Gates.
     end.
 
   (* ---- running a constructor: every call must succeed, then compile ---- *)
-  Definition env0 : @env K := fun _ => (0, 0, 0).
+  Definition env0 : @env K := fun _ => (r0, r0, r0).
   Definition first_err (rs : list (res unit)) : res unit :=
     fold_right (fun r acc => match r with Err e => Err e | Ok _ => acc end) (Ok tt) rs.
 
